@@ -2369,6 +2369,7 @@ class CSRMatmul(SparseMatmul):
             return type(self)(
                 matrix=self.matrix,
                 array=self.array,
+                reduction_var=self.reduction_var,
                 axes=self.axes,
                 reduction_descr=new_redn_descr,
                 tags=self.tags,
